@@ -18,10 +18,10 @@ run() { (cd "$WT" && PATH=/venv/bin:$PATH PYTHONPATH=$WT/src timeout 900 /venv/b
 [ $NEEDS_BUILD = 1 ] && /tmp/seed/build_ext.sh "$WT" >/dev/null
 SUITE=$(run -m pytest -q -p no:cacheprovider 2>&1 | tail -1)
 run demo_*.py >/dev/null 2>&1; DEMO_WITH=$?
-git stash -q -- src
+git apply -R "$DEST/patch.diff"
 [ $NEEDS_BUILD = 1 ] && /tmp/seed/build_ext.sh "$WT" >/dev/null
 run demo_*.py >/dev/null 2>&1; DEMO_WITHOUT=$?
-git stash pop -q
+git apply "$DEST/patch.diff"
 [ $NEEDS_BUILD = 1 ] && /tmp/seed/build_ext.sh "$WT" >/dev/null
 echo "suite with change: $SUITE | demo exit with change: $DEMO_WITH, without: $DEMO_WITHOUT"
 # apply to /repo, run the checks, undo
